@@ -74,8 +74,10 @@ def identify_lag(master, slave, steps):
     overlap must then select L. `exact` is True when the records coincide bit-for-bit on the full overlap at lag L (decided by
     comparing the samples, not by the residual: the square of a difference below 1e-162 underflows to zero)."""
     n = len(master)
-    if len(slave) != n or n < 2 * steps + 2 or steps < 1:
+    if len(slave) != n or n <= steps or steps < 1:
         return None, 'too-short-or-unequal'
+    if n < 2 * steps + 2:
+        return identify_lag_short(master, slave, steps)
     full, interior = lag_table(master, slave, steps)
     best = min(full, key=lambda L: (interior[L], abs(L)))
     others = [interior[L] for L in full if L != best]
@@ -85,6 +87,27 @@ def identify_lag(master, slave, steps):
     if not (mo > 0.0) or not (full[best] < 0.5 * mo) or not math.isfinite(mo):
         return None, 'lag-not-unique'
     return best, coincide(master, slave, best)
+
+
+def identify_lag_short(master, slave, steps):
+    """SHORT records (steps < n < 2*steps+2): no sample is inside the overlap of every candidate lag, so there is no common
+    interior window. The lag L is called identifiable when the records coincide bit-for-bit on the full overlap at lag L and,
+    for every other candidate |L'| < steps, EVERY aligned sample pair differs by an amount whose square is a normal positive
+    double. Whatever non-empty part of a candidate's overlap a residual search looks at, it then sees residual 0 for L and a
+    positive residual for every other candidate, so it must select L. Returns (L, True) or (None, reason)."""
+    n = len(master)
+    exact = [L for L in range(-steps + 1, steps) if coincide(master, slave, L)]
+    if len(exact) != 1:
+        return None, 'short-record-lag-not-exact' if not exact else 'lag-not-unique'
+    best = exact[0]
+    for L in range(-steps + 1, steps):
+        if L == best:
+            continue
+        for t in range(max(0, -L), min(n, n - L)):
+            d = abs(float(slave[t + L]) - float(master[t]))
+            if not (1e-150 < d < 1e150):
+                return None, 'lag-not-unique'
+    return best, True
 
 
 def coincide(master, slave, L):
